@@ -240,5 +240,20 @@ fn main() {
         run.bound("scale: paths with 8..5000 repeated separators / '.' segments / name segments");
         run.merge(t);
     }
+    // character sweep: every ASCII (incl. NUL) and 64 special non-ASCII characters inside segments
+    {
+        let mut t = Tally::new();
+        let mut chars: Vec<char> = mc_core::chars::all().into_iter().filter(|c| *c != '/').collect();
+        chars.push('\0');
+        run.bound(format!("character sweep: {} characters in five path positions and in a dependency's path half", chars.len()));
+        for c in chars {
+            for p in [format!("a{}/b", c), format!("{}/b", c), format!("a/{}", c), format!("a/b{}", c), format!("../../a{}/b", c)] {
+                t.states += 1;
+                check_path(&mut t, &p);
+            }
+            check_depend(&mut t, "p-[0-9]*", &format!("c{}/p", c), &[0, 1, 0]);
+        }
+        run.merge(t);
+    }
     run.finish();
 }
